@@ -48,6 +48,7 @@ def default_cfg():
         "neg_source_rs": False,
         "zero_params": 0.0,
         "deprecated_iq": False,
+        "mixed_scale": False,
         "collapse_inputs": False,
         "via_file": 0.0,
         "inf_limits": False,
@@ -78,8 +79,14 @@ class Gen:
             elif style == "fancy":
                 fmt = self.r.pick(["{p} {n}", "{p}.{n}", "{n}{p}", "{p}-{n}", "{p}_{n} v2", "{p}{n}", "{n} {p}", "{p} ({n})", "{p}/{n}", "{p}+{n}V"])
                 nm = fmt.format(p=prefix, n=self.n)
+            elif style == "summary":
+                # names that collide with the summary rows of the solve() table
+                # (legal: names are free strings); separate, rarely enabled class
+                srcs = list(m.sources()) if m is not None else []
+                cands = ["System total", "System average"] + ["Subsystem " + x for x in srcs]
+                nm = self.r.pick(cands) if self.r.chance(0.5) else "%s%d" % (prefix, self.n)
             elif style == "dot":
-                nm = self.r.pick(["%s:%d" % (prefix, self.n), "node", "edge", "graph", "%s%d" % (prefix, self.n)])
+                nm = self.r.pick(["%s:%d" % (prefix, self.n), "node", "edge", "graph", "%s%d" % (prefix, self.n), '%d" %s' % (self.n, prefix), "%s\\%d" % (prefix, self.n)])
             else:
                 nm = "%s%d" % (prefix, self.n)
             if m is None or nm not in m.used_names():
@@ -164,9 +171,13 @@ class Gen:
             hi = base * f
             lo = self.r.pick([0.0, 0.0, base * 0.1, base * 1.05])
             if k == "tp":
-                lim[k] = [self.r.pick([-40.0, 0.0, 26.0]), self.r.pick([24.0, 30.0, 85.0, 125.0])]
+                lim[k] = [self.r.pick([-40.0, 0.0, 26.0]), self.r.pick([24.0, 30.0, 85.0, 125.0, 1.0e6])]
             else:
                 lim[k] = [round(lo, 9), round(max(hi, lo), 9)]
+            if k != "tp" and self.r.chance(0.08):
+                # written for a negative rail in numeric order, or simply high-first:
+                # limits are compared by magnitude, the order inside the pair is free
+                lim[k] = self.r.pick([[-lim[k][1], -lim[k][0]], [lim[k][1], lim[k][0]], [-lim[k][0], -lim[k][1]]])
             if self.cfg.get("inf_limits") and self.r.chance(0.3):
                 # an unbounded side is legal: limits are any two numbers
                 lim[k] = [lim[k][0], float("inf")] if k != "tp" or self.r.chance(0.5) else [-float("inf"), lim[k][1]]
@@ -195,6 +206,8 @@ class Gen:
         for k in self.r.sample(keys, self.r.randint(1, min(4, len(keys)))):
             v = vals[k]
             a = abs(v)
+            if a == 0.0 and k != "tp":
+                continue  # nothing to place a limit around
             mode = self.r.pick(["hi_in", "hi_out", "lo_in", "lo_out", "exact_hi", "exact_lo", "far", "neg"])
             if k == "tp":
                 if mode in ("hi_in", "far"):
@@ -241,6 +254,8 @@ class Gen:
             return 10.0 ** self.r.randint(-9, -6)
         if self.cfg.get("mega"):
             return 1.0e5  # kV x kA systems: magnitudes beyond the default limits of 1e6
+        if self.cfg.get("mixed_scale") and self.r.chance(0.35):
+            return 10.0 ** self.r.randint(-7, -5)  # a uA branch next to mA/A branches
         return 1.0
 
     def source(self, m, name=None, positive=None):
@@ -562,6 +577,13 @@ class Gen:
             out.append(("list_parent_nonmux", {"op": "add_comp", "parent": two, "comp": c("RLoss"), "group": "", "rail": ""}))
         if loads and m.mux() is None and nonl:
             out.append(("mux_input_is_load", {"op": "add_comp", "parent": [self.r.pick(loads), self.r.pick(nonl)], "comp": c("PMux"), "group": "", "rail": ""}))
+        if m.mux() is None:
+            out.append(("empty_parent_list", {"op": "add_comp", "parent": [], "comp": c("PMux"), "group": "", "rail": ""}))
+        railed = [n for n in nonl if m.rails.get(n)]
+        if railed and m.mux() is None:
+            rn = self.r.pick(railed)
+            more = [x for x in nonl if x != rn]
+            out.append(("dup_parent_by_rail_alias", {"op": "add_comp", "parent": [rn, m.rails[rn]] + ([self.r.pick(more)] if more else []), "comp": c("PMux"), "group": "", "rail": ""}))
         out.append(("dup_parents", {"op": "add_comp", "parent": [anyp, anyp], "comp": c("PMux"), "group": "", "rail": ""}))
         if m.mux() is not None:
             out.append(("second_mux", {"op": "add_comp", "parent": [anyp], "comp": c("PMux"), "group": "", "rail": ""}))
@@ -698,6 +720,10 @@ class Gen:
             spec["p"]["pwr"] = round(v * v * self.r.pick([0.5, 2.0, 10.0, 100.0]), 4)
         else:
             spec["p"]["ii"] = round(v * self.r.pick([0.5, 2.0, 10.0, 100.0]), 4)
+            rs = m.comps[p]["p"].get("rs")
+            if isinstance(rs, (int, float)) and abs(rs) > 0 and self.r.chance(0.6):
+                # right around the point where the parent's series drop eats its input
+                spec["p"]["ii"] = float("%.6g" % (v / abs(rs) * self.r.pick([0.3, 0.45, 0.6, 0.75, 0.9, 1.2, 1.6])))
         return {"op": "add_comp", "parent": p, "comp": spec, "group": "", "rail": "", "note": "overload"}
 
     # ---- analyses
